@@ -63,7 +63,13 @@ fn render(name: &Value) -> String {
 
 fn alpn_bytes(sym: &str) -> Vec<u8> {
     match sym {
-        "unknown" => b"spdy/9".to_vec(),
+        // "unknown" of DemuxRules.tla is any name that is not exactly h3 / h2 / http/1.1: rotate over foreign
+        // names and near misses of the known ones (drafts, prefixes, suffixes, other case, padding)
+        "unknown" => {
+            static K: std::sync::atomic::AtomicUsize = std::sync::atomic::AtomicUsize::new(0);
+            const NAMES: &[&[u8]] = &[b"spdy/9", b"h3-29", b"h2c", b"http/1.10", b"H2", b"h3 ", b"http/1.0", b"h", b"h33", b"HTTP/1.1", b"h2-14", b"h3-foo"];
+            NAMES[K.fetch_add(1, std::sync::atomic::Ordering::Relaxed) % NAMES.len()].to_vec()
+        }
         "nonUtf8" => vec![0xff, 0xfe, 0x80],
         s => s.as_bytes().to_vec(),
     }
